@@ -19,4 +19,4 @@ ASSUMPTIONS = ["<= 10 initial nodes, <= 6 frames, <= 50 steps per walk",
 REQUIRED_CLASSES = {t: ["construct:bare", "construct:ids", "tracklet:relabel:add_edge",
                         "tracklet:relabel:delete_edge", "tracklet:relabel:delete_node",
                         "tracklet:relabel:undo"] for t in ("quick", "thorough")}
-run_shard, replay, minimise = make(C04Oracle, quick=(480, 30), thorough=(6400, 50), profile="structure")
+run_shard, replay, minimise = make(C04Oracle, quick=(3200, 30), thorough=(6400, 50), profile="structure")
